@@ -79,7 +79,8 @@ def run(ctx):
     if vbad:
         ctx.broken.append('correspondence C11 automaton alone (model on_enter/on_leave vs UntrustedInputChecker callbacks driven by VisitExprNode): %d of %d cases disagree' % (len(vbad), len(vterms)))
         if not bad and not tbad:
-            ctx.first_disagreement = {'case_index': vbad[0], 'model_term': vterms[vbad[0]][:4000]}
+            vsrcs = vf.read_lines(os.path.join(ctx.out, 'sources_visit.jsonl'))
+            ctx.first_disagreement = {'case_index': vbad[0], 'input': json.loads(vsrcs[vbad[0]]), 'model_term': vterms[vbad[0]][:4000]}
     fails = list(s['oracle_failures'])
     if bad:
         ctx.broken.append('correspondence C11 (model automaton+traversal vs ExprSemanticsChecker.Check): %d of %d cases disagree' % (len(bad), len(terms)))
